@@ -360,3 +360,7 @@ Definition c17_Hprec32 : Prec_gt_0 c17_prec32 := eq_refl.
 Definition c17_Hmax32 : Prec_lt_emax c17_prec32 c17_emax32 := eq_refl.
 Definition c17_Hprec64 : Prec_gt_0 c17_prec64 := eq_refl.
 Definition c17_Hmax64 : Prec_lt_emax c17_prec64 c17_emax64 := eq_refl.
+(* x87 extended precision (long double on x86-64): 64-bit significand, emax = 16384 *)
+Definition c17_prec80 := 64.  Definition c17_emax80 := 16384.
+Definition c17_Hprec80 : Prec_gt_0 c17_prec80 := eq_refl.
+Definition c17_Hmax80 : Prec_lt_emax c17_prec80 c17_emax80 := eq_refl.
